@@ -80,16 +80,28 @@ func TestVerifC13Resolver(t *testing.T) {
 			vals, mp := discov.VerifDumpContainer(sub)
 			out := fmt.Sprintf("log=%s vals=%s map=%s values=%s notified=%s last=%s pub=%s updates=%d",
 				ses.Rec.Take(), vals, mp, discov.VerifValIDs(sub.Values()), strconv.Itoa(n), last,
-				discov.VerifValIDs(cc.last), cc.updates)
+				discov.VerifValIDs(cc.last), cc.updates) + ses.LateObs()
 			if len(cc.last) != len(strings.Split(discov.VerifValIDs(cc.last), ",")) && len(cc.last) > 0 {
 				out += " pubdup=1"
+			}
+			// what update() does with the slice Values() hands to every caller (its cached snapshot): does
+			// subset work on that very array?  (two update() calls - Build's and the watch goroutine's - can run
+			// at the same time, and so can any other reader of Values())
+			if vals := sub.Values(); len(vals) > 0 {
+				shared := 0
+				if r := subset(vals, subsetSize); &r[0] == &vals[0] {
+					shared = 1
+				}
+				out += fmt.Sprintf(" shared=%d", shared)
 			}
 			n, last, cc.updates = 0, "none", 0
 			return out
 		}
 		return step, func() {
-			ses.Detach()
-			res.Close()
+			ses.Close()
+			if !ses.Dead {
+				res.Close()
+			}
 		}
 	})
 }
